@@ -35,7 +35,7 @@ type base struct {
 
 func (e *base) Setup(tier string) error { e.tier = tier; return nil }
 func (e *base) SetRun(seed, run uint64) { e.seed, e.run = seed, run }
-func (e *base) Strides() []int          { return []int{4} }
+func (e *base) Strides() []int          { return []int{6} }
 func (e *base) ShrinkBudget() int       { return 500 }
 func (e *base) Extra() map[string]any {
 	return map[string]any{"drivers_generated_and_compiled_by_this_worker": e.built}
@@ -66,6 +66,32 @@ func (e *base) driver() (*drv, error) {
 
 type op struct{ op, a, b, c int }
 
+// drawOp draws one operation: mostly from the operations that touch the
+// history's focus families (so that values are built up, moved and dropped
+// coherently instead of every operation hitting an empty slot), else any.
+func drawOp(t *tape.Tape, d *wagen.Driver, focus []int) op {
+	anyOp := t.Draw(d.NOps)
+	pick := t.Draw(4) // 0: any operation; else one of the focus families
+	which := t.Draw(1 << 12)
+	o := anyOp
+	if pick != 0 && len(focus) > 0 {
+		ops := d.FamOps[focus[pick%len(focus)]]
+		if len(ops) > 0 {
+			o = ops[which%len(ops)]
+		}
+	}
+	return op{o, t.Draw(d.Slots), t.Draw(64), t.Draw(64)}
+}
+
+func drawFocus(t *tape.Tape, d *wagen.Driver) []int {
+	n := len(d.Kinds)
+	f := []int{t.Draw(n), t.Draw(n)}
+	if t.Draw(3) == 0 {
+		return nil // unfocused history
+	}
+	return f
+}
+
 func genOps(t *tape.Tape, d *wagen.Driver, max int) []op {
 	var n int
 	switch t.Pick(3, 4, 3) {
@@ -76,9 +102,10 @@ func genOps(t *tape.Tape, d *wagen.Driver, max int) []op {
 	default:
 		n = t.Range(1, max)
 	}
+	focus := drawFocus(t, d)
 	ops := make([]op, n)
 	for i := range ops {
-		ops[i] = op{t.Draw(d.NOps), t.Draw(d.Slots), t.Draw(64), t.Draw(64)}
+		ops[i] = drawOp(t, d, focus)
 	}
 	return ops
 }
@@ -275,9 +302,10 @@ func (e *Engine12) Run(t *tape.Tape, keep bool) *sim.Result {
 		return res
 	}
 	nb := t.Range(1, 40)
+	focus := drawFocus(t, d.d)
 	body := make([]op, nb)
 	for i := range body {
-		body[i] = op{t.Draw(d.d.NOps), t.Draw(d.d.Slots), t.Draw(64), t.Draw(64)}
+		body[i] = drawOp(t, d.d, focus)
 	}
 	iters := []int{8, 64, 256}[t.Pick(5, 3, 2)]
 	if e.tier == "thorough" && t.Draw(8) == 7 {
